@@ -5,7 +5,7 @@ from .. import env, coq, runner, gates, tables, circuits
 
 LEVEL = 'proof'
 META = dict(
-    text='Coq theorems about the reference semantics (matrix-on-axes application commutes on disjoint axes, tabulation round trip, the buffer-swapping loop of apply_unitaries returns the ordered product for every choice of in-place/buffer/fresh strategies; an operation inside one factor of a product state acts on that factor only, so a run whose operations each lie in one factor is the product of the separate runs - the split_untangled_states mode) plus, on every run, a correspondence that evaluates the reference semantics (ordered product of the proven gate matrices) inside Coq on generated circuits and compares every simulation entry point of /repo with it.',
+    text='Coq theorems about the reference semantics (matrix-on-axes application commutes on disjoint axes, tabulation round trip, the buffer-swapping loop of apply_unitaries returns the ordered product for every choice of in-place/buffer/fresh strategies; an operation inside one factor of a product state acts on that factor only, so a run whose operations each lie in one factor is the product of the separate runs - the split_untangled_states mode; fifteen slicing kernels incl. SWAP, ISWAP, CCZ, CCX, CSWAP, FSim, qudit Z, n-qubit diagonal and qubit-permutation kernels are the action of the documented matrices; the classical basis-state simulator's update rule tracks the matrix action up to a phase; axis permutations commute with runs) plus, on every run, a correspondence that evaluates the reference semantics (ordered product of the proven gate matrices) inside Coq on generated circuits and compares every simulation entry point of /repo with it.',
     note='Trusted: Coq kernel; float instantiation of the model (PrimFloat, tolerances 1e-7 for complex128, 3e-6*sqrt(dim) for complex64); numpy itself (einsum/transpose) is modelled as linear maps, not verified; the Python adapters. The theorems are about the model of the algorithm; the entry points themselves are compared on sampled circuits.',
     technique='Rocq/Coq proof over an executable reference semantics + vm_compute correspondence against every simulator entry point',
 )
@@ -60,8 +60,15 @@ def classical_case(rng):
     """Reversible circuit over X, CX, CCX, SWAP, qubit permutations at exponent 1 (ClassicalStateSimulator vocabulary)."""
     n = rng.randint(2, 5)
     ops = []
+    # one wire may be a 4-level system: only powers of its X gate that are the identity are in the vocabulary there
+    qudit = rng.randrange(n) if rng.random() < 0.3 else None
     for _ in range(rng.randint(1, 10)):
         fam = rng.choice(['XPow', 'CXPow', 'SwapPow', 'CCXPow', 'Perm', 'Perm', 'Ctrl', 'Ctrl'])
+        if qudit is not None and rng.random() < 0.35:
+            # multiples of 4 are the identity; 2 is NOT (X**2 of a 4-level system maps |0> to |2>): accepted only if tracked rightly
+            g = gates.G('X4Pow', dict(e=float(rng.choice([4, 8, -4, 0, 2, 2, 6])), s=rng.choice([0.0, 0.5])), (4,))
+            ops.append(circuits.Op(g, [qudit]))
+            continue
         if fam == 'Ctrl':
             sub = gates.G(rng.choice(['XPow', 'SwapPow']), dict(e=1.0, s=0.0), (2,)) 
             if sub.fam == 'SwapPow':
@@ -80,12 +87,14 @@ def classical_case(rng):
             rng.shuffle(perm)
             g = gates.G('Perm', dict(perm=perm), (2,) * k)
         else:
-            g = gates.G(fam, dict(e=1.0, s=0.0), gates.EIG_SHAPE.get(fam, (2, 2)))
-        if len(g.shape) > n:
+            # exponent 1 (and its equals mod 2) is the base gate; even exponents are the identity up to a phase (any global shift)
+            e, sh = rng.choice([(1.0, 0.0), (1.0, 0.0), (3.0, 0.0), (-1.0, 0.0), (2.0, 0.0), (2.0, 0.5), (0.0, 0.25), (4.0, -0.5)])
+            g = gates.G(fam, dict(e=e, s=sh), gates.EIG_SHAPE.get(fam, (2, 2)))
+        if len(g.shape) > n - (qudit is not None):
             continue
-        ws = rng.sample(range(n), len(g.shape))
+        ws = rng.sample([w for w in range(n) if w != qudit], len(g.shape))
         ops.append(circuits.Op(g, ws))
-    c = circuits.Case([2] * n, ops, ['E'] * len(ops))
+    c = circuits.Case([4 if w == qudit else 2 for w in range(n)], ops, ['E'] * len(ops))
     c.classical = True
     return c
 
@@ -164,17 +173,25 @@ def entry_points(ctx, cirq, mods, case):
         return out
     if getattr(case, 'classical', False):
         order = order_perm(rng, n)
-        k = rng.randrange(dim)
-        bits = [int(b) for b in format(k, f'0{n}b')]
+        od = dims_of(order)
+        # a basis state with the 4-level wire (if any) in |0>: it is prepared with X gates on the qubits
+        digits = [0 if d != 2 else rng.randrange(2) for d in od]
+        k = 0
+        for d, x in zip(od, digits):
+            k = k * d + x
         cc = c + cirq.Circuit(cirq.measure(*ordered(order), key='m'))
-        # initial state for the classical simulator: list of bits in qubit order of sorted qubits
         sim = cirq.ClassicalStateSimulator()
-        init_bits = [0] * n
-        for pos, w in enumerate(order):
-            init_bits[sorted(range(n)).index(w)] = bits[pos]
-        res = sim.run(cirq.Circuit([cirq.X(qs[w]) for w in range(n) if init_bits[w]]) + cc, repetitions=1)
-        outbits = [int(b) for b in res.records['m'][0][0]]
-        kout = int(''.join(map(str, outbits)), 2)
+        prep = cirq.Circuit([cirq.X(qs[w]) for pos, w in enumerate(order) if digits[pos]])
+        try:
+            res = sim.run(prep + cc, repetitions=1)
+        except ValueError as e:
+            if 'is not one of' in str(e) or 'Can not apply' in str(e) or 'not supported' in str(e).lower():
+                ctx.count('classical.run:refused', [case.key()], True, sample=dict(refused=str(e)[:120]))
+                return out          # an explicit refusal of an operation outside the classical vocabulary
+            raise
+        kout = 0
+        for d, x in zip(od, res.records['m'][0][0]):
+            kout = kout * d + int(x)
         out.append(('classical.run', order, basis_vec(dim, k), kout, 'basis', TOL128))
         return out
 
